@@ -6,6 +6,8 @@ import (
 	"fmt"
 	"os"
 	"runtime"
+	"runtime/debug"
+	"runtime/metrics"
 	"strconv"
 	"testing"
 
@@ -62,11 +64,20 @@ func TestWorker(t *testing.T) {
 	if prop == "" {
 		t.Skip("DST_PROP not set")
 	}
-	runtime.GOMAXPROCS(envInt("DST_PROCS", 1))
-	runtime.MemProfileRate = 0
 	out := bufio.NewWriter(os.Stdout)
 	defer out.Flush()
 	enc := json.NewEncoder(out)
+	runtime.GOMAXPROCS(envInt("DST_PROCS", 1))
+	runtime.MemProfileRate = 0
+	// No garbage collection may run concurrently with a simulated run: GC
+	// workers and stack scans preempt goroutines at wall-clock-dependent
+	// moments. Collection happens between runs only, synchronously.
+	debug.SetGCPercent(-1)
+	if os.Getenv("GOGC") != "off" {
+		fmt.Fprintln(out, `{"fatal":"the worker must be started with GOGC=off: a garbage collection before or during a run makes goroutine order depend on wall-clock time"}`)
+		out.Flush()
+		os.Exit(2)
+	}
 	if !qm.Probe() {
 		fmt.Fprintln(out, `{"fatal":"workqueue metrics provider was not installed by dst/qm"}`)
 		out.Flush()
@@ -144,6 +155,17 @@ func TestWorker(t *testing.T) {
 				fmt.Fprintln(out, w.DumpStore(os.Getenv("DST_DUMP")))
 			}
 		}
-		runtime.GC()
+		// no collection between runs either (see above); the runner bounds the
+		// number of runs per process instead
+		if heapBytes() > uint64(envInt("DST_MAXHEAP_MB", 1500))<<20 {
+			fmt.Fprintln(out, `{"recycle":true}`)
+			break
+		}
 	}
+}
+
+func heapBytes() uint64 {
+	s := []metrics.Sample{{Name: "/memory/classes/heap/objects:bytes"}}
+	metrics.Read(s)
+	return s[0].Value.Uint64()
 }
